@@ -8,7 +8,9 @@
      http.Redirect / URL.String         -> http_redirect / escape_path
      internalsrv.Internal.ServeHTTP     -> internal_blocks (it also feeds the hide list)
      browse.Browse.ServeHTTP            -> browse (scope, redirect, listing, archive walk)
-     httpserver.hideCasketfile          -> hide_casketfile
+     httpserver.hideCasketfile          -> hide_casketfile (one site config), hide_casketfile_all (its
+                                           one pass over the list of ALL site configs of a Casketfile)
+     strconv.Atoi (browse's ?limit=)    -> atoi / limit_of
 
    A site with a path prefix (address host/pre): [q_path] is the path the handlers see, i.e. after
    httpserver.trimPathPrefix (the harness computes it as the server does: TrimPrefix on the escaped
